@@ -504,10 +504,42 @@ func readerPathName(rd *segRead) string {
 // c06Fallback: the writer signals "not compressed" by storing 0 into one header field and the
 // reader recognises it by testing the same field against 0 (SSA).
 func c06Fallback(p *Program, r *Report) {
-	enc := ssaMethod(p, "segment", "codec", "encodeSegmentCompressed")
-	dec := ssaMethod(p, "segment", "codec", "decodeSegmentHeader")
+	enc := ssaMethod(p, "segment", "codec", "EncodeSegment")
+	decEntry := ssaMethod(p, "segment", "codec", "DecodeSegment")
+	// everything the entry points reach inside package segment (helpers may be extracted or inlined)
+	reachFrom := func(root *ssa.Function) []*ssa.Function {
+		seen := map[*ssa.Function]bool{root: true}
+		work := []*ssa.Function{root}
+		var out []*ssa.Function
+		for len(work) > 0 {
+			f := work[len(work)-1]
+			work = work[:len(work)-1]
+			out = append(out, f)
+			for _, b := range f.Blocks {
+				for _, ins := range b.Instrs {
+					if ci, ok := ins.(ssa.CallInstruction); ok {
+						if g := ci.Common().StaticCallee(); g != nil && g.Pkg == root.Pkg && g.Blocks != nil && !seen[g] {
+							seen[g] = true
+							work = append(work, g)
+						}
+					}
+				}
+			}
+		}
+		return out
+	}
 	zeroStored := map[string]bool{}
-	for _, b := range enc.Blocks {
+	var encBlocks, decBlocks []*ssa.BasicBlock
+	for _, f := range reachFrom(enc) {
+		if strings.Contains(f.Name(), "ncompressed") && !strings.Contains(f.Name(), "Header") {
+			continue // the plain (no compressor) path stores 0 unconditionally; the signal is the compressed path's
+		}
+		encBlocks = append(encBlocks, f.Blocks...)
+	}
+	for _, f := range reachFrom(decEntry) {
+		decBlocks = append(decBlocks, f.Blocks...)
+	}
+	for _, b := range encBlocks {
 		for _, ins := range b.Instrs {
 			if st, ok := ins.(*ssa.Store); ok {
 				if _, fld, ok := fieldAddrOf(st.Addr); ok {
@@ -519,7 +551,7 @@ func c06Fallback(p *Program, r *Report) {
 		}
 	}
 	zeroTested := map[string]bool{}
-	for _, b := range dec.Blocks {
+	for _, b := range decBlocks {
 		for _, ins := range b.Instrs {
 			bo, ok := ins.(*ssa.BinOp)
 			if !ok || (bo.Op != token.EQL && bo.Op != token.NEQ) {
@@ -538,7 +570,13 @@ func c06Fallback(p *Program, r *Report) {
 			}
 		}
 	}
-	if len(zeroStored) == 1 && setStr(zeroStored) == setStr(zeroTested) {
+	subset := len(zeroStored) == 1
+	for f := range zeroStored {
+		if !zeroTested[f] {
+			subset = false
+		}
+	}
+	if subset {
 		r.OKf("fallback", "signalling", enc.Pos(), "writer stores 0 into %s to signal an uncompressed payload; reader tests the same field", setStr(zeroStored))
 	} else {
 		r.Fail("fallback", "signalling", enc.Pos(), "writer signals the uncompressed fallback through {%s} = 0 but the reader tests {%s} against 0", setStr(zeroStored), setStr(zeroTested))
